@@ -189,6 +189,8 @@ class ProcessModelSteps(Contract):
              (helper) the returned estimate is the canonical MOVE of the held estimate;
     frame    self.* unchanged."""
 
+    assignable = ()  # frame: attributes of self the method may write
+
     key = "formak.runtime:ManagedFilter._process_model"
     prefix = "C10.py._process_model"
 
@@ -342,6 +344,8 @@ class TickFold(Contract):
              that timestamp], result = MOVE(held', output_time) as (state, covariance), and that last move is
              not stored; readings None/[] leave every field untouched.
     frame    only current_time/state/covariance, and only through the fold."""
+
+    assignable = ('current_time', 'state', 'covariance')  # frame: attributes of self the method may write
 
     key = "formak.runtime:ManagedFilter.tick"
     prefix = "C11.py.tick"
